@@ -257,6 +257,10 @@ class Run:
                 ret = proc.fail(exc, None)
             elif kind == 'cancel_future':
                 ret = proc.future().cancel()
+            elif kind == 'rpc_pause':
+                # the pause arrives as a message (what a communicator delivers); the reply future is what the sender gets
+                from plumpy.process_comms import MessageBuilder
+                ret = proc.message_receive(None, MessageBuilder.pause(arg))
             elif kind == 'cancel_ret':
                 # the requester withdraws: cancels the future that its most recent kill() / pause() (arg) handed back
                 target = next((n for n, f in reversed(self.futs) if self.acts[n]['kind'] == arg), None)
@@ -277,7 +281,7 @@ class Run:
                 ret = None
             else:
                 raise AssertionError(kind)
-            if asyncio.isfuture(ret):
+            if asyncio.isfuture(ret) or hasattr(ret, 'add_done_callback'):
                 entry['ret'] = ['future']
                 self.futs.append((entry['n'], ret))
             else:
@@ -323,6 +327,7 @@ class Run:
             finally:
                 programs.CURRENT_REC = None
             self.rec.hooks['step'] = self._on_step
+            self.early_future = proc.future()  # what a waiter who asked before the run holds
             proc.add_cleanup(lambda: self.rec.ev('cleanup'))
             if case.get('cleanup_chain'):
                 # a cleanup that, when it runs, registers one more (accepted by add_cleanup, so it has to run as well, once)
@@ -369,6 +374,16 @@ class Run:
             self.task_info = self._task_info(self.task)
             self.extra_task_info = [self._task_info(t) for t in self.extra_tasks]
             self.fut_info = [[n, describe_future(f)] for n, f in self.futs]
+            self.early_future_info = describe_future(self.early_future)
+            # tasks that died with an exception report it to the loop's handler only when they are collected: do that now
+            if case.get('collect_dead_tasks'):
+                import gc
+                self._release_for_collection()
+                gc.collect()
+                try:
+                    drv.pump()
+                except BudgetExceeded:
+                    pass
             self.loop_errors = describe_errors(drv.errors)
             self.loop_error_excs = drv.error_exceptions()
             self.slots = drv.slot
@@ -394,6 +409,9 @@ class Run:
 
     def _collect_extra(self):
         return {}
+
+    def _release_for_collection(self):
+        """Drop references of the harness that keep finished tasks alive (e.g. tracebacks of exceptions it holds on to)."""
 
     @staticmethod
     def _task_info(task):
@@ -494,6 +512,7 @@ class Run:
             'undelivered': self.undelivered, 'final_phase': getattr(self, 'final_phase', None),
             'plan_done_q': getattr(self, 'plan_done_q', None), 'drain_done_q': getattr(self, 'drain_done_q', None),
             'barrage_from': getattr(self, 'barrage_from', None), 'extra': getattr(self, 'extra', None),
+            'early_future': getattr(self, 'early_future_info', None),
         }
 
 
